@@ -34,8 +34,8 @@ m = {
                  "kind_free_text": "explicit TLA+ specification (CatImpl: both state machines of cat.c; CatOracle: declarative line meaning; CatMon: property monitors) "
                                    "checked with TLC, bound to the C code by trace validation of recorded executions (harness/catdrv.c -> ndjson -> spec/CatTrace.tla)"}],
     "checks": checks,
-    "notes": "Every check rebuilds the harness from /repo/src (VERIF_REPO overrides), runs the model-checking configurations of the property, executes seeded scenario families on the real code "
-             "(ASan+UBSan build) and validates every recorded API call with TLC against CatImpl (step grain) and the CatMon monitors (observable grain). "
+    "notes": "Every check rebuilds the harness from /repo/src (VERIF_REPO overrides), runs the model-checking configurations of the property, executes seeded scenario families (random, enumerated, TLC simulation behaviours, complete edge covers) and the repository's own test programs "
+             "(recorded through harness/catrec.c) on the real code (ASan+UBSan build) and validates every recorded API call with TLC against CatImpl (step grain) and the CatMon monitors (observable grain). "
              "Verdicts come from the monitors only; CatImpl mismatches without a monitor hit are recorded as impl_conformance=drift in the evidence. "
              "Exit 2 = machinery failure. known_findings.txt lists the five defects of the pinned tree, all repaired by fix: commits in /repo.",
     "not_applicable": na,
